@@ -492,9 +492,12 @@ RUNNERS['copy'] = run_copy
 # =================================================================================================
 # C20: storage / lifetime harness (storage/storage.cpp), clang ASan + UBSan, exhaustive op sequences
 ST_BACKENDS = {'m': 5, 'mc': 7, 'b': 1, 'bq': 2}
-ST_TYPES_QUICK = [(1, 4, 0), (40, 8, 2), (41, 8, 2), (64, 64, 4), (200, 8, 1)]
+ST_TYPES_QUICK = [(1, 1, 5), (1, 4, 0), (40, 8, 2), (41, 8, 2), (64, 64, 4), (200, 8, 1)]
 ST_TYPES_THOROUGH = [(1, 4, 0), (8, 8, 0), (32, 8, 2), (40, 8, 2), (41, 8, 2), (48, 8, 2), (56, 8, 0), (57, 8, 2), (64, 8, 0), (200, 8, 1), (512, 8, 2),
-                     (16, 16, 2), (32, 32, 0), (64, 64, 4), (40, 8, 4), (40, 8, 3), (8, 4, 1), (24, 8, 3)]
+                     (16, 16, 2), (32, 32, 0), (64, 64, 4), (40, 8, 4), (40, 8, 3), (4, 8, 1), (24, 8, 3), (1, 1, 5), (3, 2, 5), (100, 4, 0)]
+
+
+ST_TYPES_DEEP = [(41, 8, 2), (200, 8, 1), (40, 8, 4), (1, 1, 5)]
 
 
 # MemorySanitizer pass (reads of uninitialised memory): same harness, separate build; fewer types in the quick tier
@@ -567,6 +570,9 @@ def run_storage(pid, tier):
     depth = spec['depth'][tier] if tier in spec['depth'] else spec['depth']['quick']
     jobs = [(be, t, depth, 'asan') for be in ST_BACKENDS for t in types]
     jobs += [(be, t, depth, 'msan') for be in ST_BACKENDS for t in (types if tier == 'thorough' else ST_MSAN_QUICK)]
+    if tier == 'thorough':
+        # one level deeper for the types around the inline/heap boundary and the special classes
+        jobs += [(be, t, depth + 1, 'asan') for be in ST_BACKENDS for t in ST_TYPES_DEEP]
     rdir = os.path.join(VERIF, 'evidence', 'replays')
     os.makedirs(rdir, exist_ok=True)
     import glob
@@ -598,7 +604,7 @@ def run_storage(pid, tier):
         'property_id': pid, 'tier': tier, 'seed': int(os.environ.get('VERIF_SEED', '0')), 'level': spec['level'],
         'coverage': {
             'evaluations': seqs, 'distinct_nontrivial': sum(1 for r in results for _ in range(1) if r['verified'] > 0) and seqs,
-            'rule': spec['rule'] + f' (depth {depth}; every sequence is distinct by construction; non-trivial = all sequences, they all construct, store or destroy events)',
+            'rule': spec['rule'] + f' (depth {depth}, thorough: additionally depth {depth + 1} for four types; every sequence is distinct by construction; non-trivial = all sequences, they all construct, store or destroy events)',
             'samples': [s for r in results for s in r['samples'][:1]][:8], 'exhaustive': True,
             'verified_dispatches': sum(r['verified'] for r in results),
             'per_job': [{'backend': r['be'], 'sanitizer': r['san'], 'type': 'Evt<%d,%d,%d>' % r['type'], 'depth': r['depth'], 'sequences': r['sequences'], 'bad': r['nbad'], 'wall': round(r['wall'], 2)} for r in results],
